@@ -466,6 +466,11 @@ mut("stream_group_raw_pointer_marker", ["C18"],
      ("src/stream/stream_group.rs", "            capacity,\n        }", "            capacity,\n            _marker: core::marker::PhantomData,\n        }")],
     "a raw-pointer marker in StreamGroup: neither Send nor Sync")
 
+mut("chain_vec_sync_needs_send", ["C18"],
+    [("src/stream/chain/vec.rs", "    done: bool,\n}", "    done: bool,\n    #[cfg(feature = \"std\")]\n    _lock: core::marker::PhantomData<std::sync::Mutex<S>>,\n}"),
+     ("src/stream/chain/vec.rs", "            done: false,\n        }", "            done: false,\n            #[cfg(feature = \"std\")]\n            _lock: core::marker::PhantomData,\n        }")],
+    "a Mutex<S> marker in Vec chain (std): Send as before, but Sync only when the streams are Send - children that are Sync and not Send no longer give a Sync chain")
+
 # ---------------------------------------------------------------- true thread races
 # These only misbehave when a wake-up from another thread lands *between two
 # steps inside the library*; no interleaving of whole wake() calls and whole
